@@ -12,11 +12,14 @@ from __future__ import annotations
 import csv
 import io
 import itertools
+import math
 import os
 import shutil
 import tempfile
 
-from vp.core import Check, Failure, enc
+from fractions import Fraction
+
+from vp.core import Check, Failure, enc, encb
 
 META = dict(
     level_text="Lean 4 theorems: for the archiver's csv dialect (QUOTE_NONE, escapechar '\\', delimiter ',', "
@@ -29,7 +32,14 @@ META = dict(
                "text-file line iteration with newline='' (validated differentially, reader exhaustively on all texts "
                "up to length 4/5 over the special characters). Tag classes whose archive() is None only sometimes do "
                "not exist in the tree (Tag, MarkTag: never None; ArchiverTag: always None) — a UOD-defined subclass "
-               "could break the column count and is outside the model. Float values are exercised on multiples of 1/32.",
+               "could break the column count and is outside the model. 'Reads back exactly' is read as: the text that was "
+               "written comes back unchanged; for a float tag the written text is, as Tag.archive documents it, the "
+               "value in '%0.5f' (the model formats the exact binary value, correctly rounded, ties to even, and is "
+               "compared on arbitrary doubles), so the oracle allows |read - value| <= 5e-6 for floats and demands "
+               "equality for everything else. Read-back goes (a) through the file with the archiver's dialect and (b) "
+               "through the product's own reader ArchiverTag.read_last_run_archive after on_stop. The model follows the "
+               "proposed repair fixes/C39-read-archive-keeps-line-breaks.diff (newline='' in that reader): on a tree "
+               "without it a string tag value containing CR comes back with LF and the check reports that VIOLATION.",
     technique="Lean 4 proof (reader state machine inverts the writer, by induction over fields/rows; invariant over "
               "archiver operation sequences) + differential correspondence on real files",
 )
@@ -38,6 +48,7 @@ REQUIRED = ["OPM.C39.read_written_rows", "OPM.C39.archive_reads_back", "OPM.C39.
 
 SPECIAL = [",", "\\", '"', "\r", "\n", "a", ";", " "]
 UNITS = [None, "L/h", "%", "degC", "kg", "mS/cm"]
+RUN_ID = "run-1"
 MARK_NAME, ARCHIVER_NAME = "Mark", "Archive filename"   # SystemTagName.MARK / ARCHIVER (checked in Rig)
 
 
@@ -56,9 +67,8 @@ def enc_val(v):
     if v is None:
         return "n"
     if isinstance(v, float):
-        n = v * 32
-        assert n == int(n)
-        return f"f:{int(n)}"
+        num, den = abs(v).as_integer_ratio()          # the exact binary value
+        return f"f:{encb(math.copysign(1.0, v) < 0)}:{num}:{den}"
     if isinstance(v, int):
         return f"i:{v}"
     return "s:" + enc(v)
@@ -153,16 +163,24 @@ def gen_archiver_cases(ctx: Check):
     return cases
 
 
+NASTY_FLOATS = [0.0, -0.0, 1e-6, -1e-7, 4.9999e-6, 5e-6, 5.0000001e-6, 1 / 64, 3 / 64, -5 / 64, 0.1, 0.000015, 2.675,
+                123.4567891, -987654.321987, 1e15 + 0.25, 1e22, 0.99999949999, 0.999995, 9.999995, 1 / 3, 2.5e-5]
+
+
 def _rand_val(rng):
     k = rng.random()
     if k < 0.1:
         return None
+    if k < 0.2:
+        return rng.randrange(-64000, 64000) / 32.0          # exactly representable at 5 decimals
+    if k < 0.32:
+        return rng.choice(NASTY_FLOATS)                      # ties, tiny values, signed zero, many digits
     if k < 0.45:
-        return rng.randrange(-64000, 64000) / 32.0
+        return rng.uniform(-1, 1) * 10 ** rng.randrange(-7, 9)   # arbitrary doubles
     if k < 0.6:
         return rng.randrange(-1000, 100000)
     if k < 0.75:
-        return rng.choice(["Running", "A,B", "Hold;x", "C:\\dir", 'say "hi"', "", "x\ny", "é€"])
+        return rng.choice(["Running", "A,B", "Hold;x", "C:\\dir", 'say "hi"', "", "x\ny", "é€", "a\rb", "x\r\ny"])
     return rand_text(rng, 0, 8)
 
 
@@ -265,7 +283,8 @@ class Rig:
         A.datetime = self.FakeDatetime
         try:
             if op[0] == "start":
-                self.archiver.on_start("run-id")
+                self.archiver._on_before_start(RUN_ID)   # what the event emitter does before on_start
+                self.archiver.on_start(RUN_ID)
             elif op[0] == "row":
                 self.clock += 1
                 self._cur = []
@@ -285,6 +304,17 @@ class Rig:
 
     def path(self):
         return self.archiver.file_path
+
+    def stop_and_read(self) -> str:
+        """The product's own read-back path: Stop, then the text `create_run_stopped_msg` ships as the archive."""
+        A = self.A
+        saved = A.datetime
+        A.datetime = self.FakeDatetime
+        try:
+            self.archiver.on_stop()
+            return self.archiver.read_last_run_archive(RUN_ID)
+        finally:
+            A.datetime = saved
 
 
 def op_line(op, clock):
@@ -307,11 +337,26 @@ def case_lines(case):
         if op[0] == "row":
             clock += 1
         out.append(op_line(op, clock))
-    return out + ["file", "read"]
+    return out + ["file", "read", "read"]
+
+
+def dialect():
+    """The dialect the archiver module declares (so the oracle follows a consistent change of it)."""
+    import openpectus.engine.archiver as A
+    return dict(delimiter=A.delimiter, quoting=A.quoting, escapechar=A.escapechar)
+
+
+def parse_text(text: str, **fmt) -> str:
+    fmt = fmt or dict(delimiter=",", quoting=csv.QUOTE_NONE, escapechar="\\")
+    try:
+        rows = list(csv.reader(io.StringIO(text, newline=""), **fmt))
+    except csv.Error:
+        return "err:newline"
+    return "ok\t" + enc_rows(rows)
 
 
 def run_case(case, tmp):
-    """Drive the real code; returns (answer lines, file path, spy log)."""
+    """Drive the real code; returns (answer lines, file path, text returned by read_last_run_archive)."""
     d = tempfile.mkdtemp(dir=tmp)
     rig = Rig(case, d)
     out = ["ok"]
@@ -323,7 +368,13 @@ def run_case(case, tmp):
         text = f.read()
     out.append(enc(text))
     out.append(py_read_file(p))
-    return out, p, rig.spy
+    try:
+        shipped = rig.stop_and_read()
+        out.append(parse_text(shipped))
+    except Exception as e:
+        shipped = None
+        out.append(f"err:{type(e).__name__}")
+    return out, p, shipped
 
 
 MARK_SEPARATOR = "; "   # the documented separator of successive marks (tags_impl.MARK_SEPARATOR)
@@ -369,49 +420,91 @@ def expected_rows(case):
     return rows
 
 
-def cell_matches(cell: str, want) -> bool:
+FLOAT_TOLERANCE = Fraction(5, 10 ** 6)   # half a unit of the 5th decimal: Tag.archive writes floats as '%0.5f'
+
+
+def cell_matches(cell: str, want, fold_newlines=False) -> bool:
     if want is None:
         return cell == ""
-    if isinstance(want, (int, float)) and not isinstance(want, bool):
-        try:
-            return float(cell) == want   # harness values are multiples of 1/32: exact at 5 decimals
-        except ValueError:
-            return False
+    if isinstance(want, bool):
+        return cell == str(want)
+    if isinstance(want, int):
+        return cell == str(want) or _as_fraction(cell) == want     # 2.0 set on a tag holding 2 leaves the int
+    if isinstance(want, float):
+        got = _as_fraction(cell)
+        return got is not None and abs(got - Fraction(want)) <= FLOAT_TOLERANCE
+    if fold_newlines:
+        return cell == want.replace("\r", "\n")   # each CR is a line end of its own behind the escapechar
     return cell == want
 
 
-def oracle_archive(case, tmp) -> list[Failure]:
-    """The property, stated over the real file and the values that were set on the tags: every data row has the
-    header's columns; the file read back with the same dialect gives the tag values / mark texts unchanged."""
-    _, p, _ = run_case(case, tmp)
-    with open(p, "r", newline="", encoding="utf-8") as f:
-        rows = list(csv.reader(f, delimiter=",", quoting=csv.QUOTE_NONE, escapechar="\\"))
-    fails = []
+def _as_fraction(cell: str):
+    try:
+        return Fraction(cell)
+    except (ValueError, ZeroDivisionError):
+        return None
+
+
+FILE_KEYS = dict(nohdr="archive-has-no-header", cols="row-column-count-differs-from-header",
+                 count="archive-row-count-differs", value="archived-value-differs-from-tag-value",
+                 nl="archived-value-line-breaks-changed")
+SHIPPED_KEYS = dict(nohdr="read_last_run_archive-has-no-header", cols="read_last_run_archive-column-count-differs",
+                    count="read_last_run_archive-row-count-differs", value="read_last_run_archive-value-differs",
+                    nl="read_last_run_archive-changes-line-breaks-in-values")
+
+
+def compare_rows(rows, expected, header, keys, case, fails):
+    """rows = what was read back (header first); expected = the values set on the tags."""
     if not rows:
-        return [Failure("archive-has-no-header", case, "archive file is empty after on_start")]
-    header = rows[0]
+        fails.append(Failure(keys["nohdr"], case, "archive is empty after on_start"))
+        return
     for i, r in enumerate(rows[1:], 1):
         if len(r) != len(header):
-            fails.append(Failure("row-column-count-differs-from-header", case,
+            fails.append(Failure(keys["cols"], case,
                                  f"row {i} has {len(r)} columns, header has {len(header)}: {r!r} vs {header!r}"))
-            break
-    expected = expected_rows(case)
+            return
     if len(rows) - 1 != len(expected):
-        fails.append(Failure("archive-row-count-differs", case,
-                             f"{len(rows) - 1} data rows in the file, {len(expected)} rows were written"))
+        fails.append(Failure(keys["count"], case,
+                             f"{len(rows) - 1} data rows read back, {len(expected)} rows were written"))
+        return
     for k, (got, want) in enumerate(zip(rows[1:], expected)):
         if len(got) != len(want):
-            if not fails:
-                fails.append(Failure("row-column-count-differs-from-header", case,
-                                     f"data row {k} has {len(got)} columns, {len(want)} tags have a column (+time)"))
-            break
+            fails.append(Failure(keys["cols"], case,
+                                 f"data row {k} has {len(got)} columns, {len(want)} tags have a column (+time)"))
+            return
         bad = [j for j, (c, w) in enumerate(zip(got, want)) if not cell_matches(c, w)]
         if bad:
             j = bad[0]
-            fails.append(Failure("archived-value-differs-from-tag-value", case,
+            only_newlines = all(cell_matches(c, w, fold_newlines=True) for c, w in zip(got, want))
+            fails.append(Failure(keys["nl"] if only_newlines else keys["value"], case,
                                  f"data row {k}, column {j} ({header[j] if j < len(header) else '?'!r}): read back "
                                  f"{got[j]!r}, the tag held {want[j]!r}"))
-            break
+            return
+
+
+def oracle_archive(case, tmp) -> list[Failure]:
+    """The property, stated over the real file, the product's own reader and the values that were set on the tags:
+    every data row has the header's columns; reading back — (a) the file with the archiver's dialect, (b) the text
+    ArchiverTag.read_last_run_archive returns (what is shipped as the run's archive) — gives the tag values / mark
+    texts unchanged (floats: as written, i.e. within half a unit of the 5th decimal)."""
+    _, p, shipped = run_case(case, tmp)
+    fmt = dialect()
+    with open(p, "r", newline="", encoding="utf-8") as f:
+        rows = list(csv.reader(f, **fmt))
+    fails: list[Failure] = []
+    expected = expected_rows(case)
+    compare_rows(rows, expected, rows[0] if rows else [], FILE_KEYS, case, fails)
+    if shipped is None:
+        fails.append(Failure("read_last_run_archive-raises", case, "read_last_run_archive raised after on_stop"))
+    else:
+        try:
+            srows = list(csv.reader(io.StringIO(shipped, newline=""), **fmt))
+        except csv.Error as e:
+            fails.append(Failure("read_last_run_archive-unreadable", case, f"csv.Error: {e}"))
+            return fails
+        compare_rows(srows, expected, srows[0] if srows else [], SHIPPED_KEYS, case, fails)
+        if rows and srows and srows[0] != rows[0]:
+            fails.append(Failure("read_last_run_archive-header-differs", case, f"{srows[0]!r} vs file {rows[0]!r}"))
     return fails
 
 
@@ -490,14 +583,16 @@ def _run(ctx: Check, tmp: str) -> int:
     ctx.extra["exhaustive_scopes"] = {"writer": "all rows of <=2 fields of length <=2 over 6 characters",
                                       "reader": f"all texts up to length {ctx.n(4, 5)} over 6 characters"}
     ctx.assumptions = [
-        "the archive is read back with the dialect it was written with, from a file opened with newline='' "
-        "(as the csv documentation requires); ArchiverTag.read_last_run_archive returns the raw text",
+        "the archive is read back with the dialect the archiver module declares, (a) from the file opened with "
+        "newline='' and (b) from the text ArchiverTag.read_last_run_archive returns after on_stop (what "
+        "create_run_stopped_msg ships); both must give the values that were set on the tags",
         "CPython csv writer/reader and text-file line splitting are modelled for this dialect and validated differentially",
         "tag classes are the ones in the tree: archive() is None for ArchiverTag only, and then always",
         "oracle: expected cells come from the values SET on the tags (numbers compared numerically, texts exactly, "
         "marks joined by '; '), never from archive()'s return value; marks set before on_start belong to the "
         "header line (which evaluates the tags like a row) and are not expected in a data row",
-        "float tag values are multiples of 1/32 in the harness so that '%0.5f' is exact",
+        "floats: arbitrary doubles incl. rounding ties (k/64), tiny values and -0.0; the archived text of a float is its "
+        "'%0.5f' rendering (documented format of Tag.archive), hence tolerance 5e-6 in the oracle; nan/inf not generated",
     ]
     return ctx.finish(search=lambda c: c.monitor(gen_archiver_cases(c), lambda x: oracle_archive(x, tmp)))
 
@@ -516,9 +611,9 @@ def replay(obj) -> int:
             print(f.detail if f else "round trip ok")
             return 1 if f else 0
         if "tags" in case:
-            out, p, spy = run_case(case, tmp)
+            out, p, shipped = run_case(case, tmp)
             print("file text:", repr(open(p, newline="", encoding="utf-8").read()))
-            print("archive() returned:", spy)
+            print("read_last_run_archive returned:", repr(shipped))
             fails = oracle_archive(case, tmp)
             for f in fails:
                 print("FAIL", f.key, f.detail)
